@@ -39,59 +39,141 @@ theorem extracted_ctx_deadline (cfg : Cfg) (sc : Script) (e : Nat) (he : sc.firs
     ∃ s, execList cfg sc Gen.before {} = .cont s ∧ s.ctxBound = true ∧ s.ctxDeadline = decide (cfg.maxElapsed > 0) ∧
       s.bo = some cfg := ⟨_, extracted_before cfg sc e he, rfl, rfl, rfl⟩
 
-/-- state in the loop body after the back-off was consulted (not stopped) and the timer fired `late` -/
-def afterWait (cfg : Cfg) (sc : Script) (st : St) (late : Nat) : St :=
-  { st with pass := st.pass + 1,
-            now := st.now + (sc.iter (st.pass + 1)).lag + randomized cfg st.cur (sc.iter (st.pass + 1)).draw + late,
-            wait := some (randomized cfg st.cur (sc.iter (st.pass + 1)).draw), cur := nextCur cfg st.cur }
+theorem execList_cont (cfg : Cfg) (sc : Script) (a : Stmt) (rest : List Stmt) (s s' : St)
+    (h : step cfg sc a s = .cont s') : execList cfg sc (a :: rest) s = execList cfg sc rest s' := by
+  simp only [execList, h]
 
-/-- … and after the handler call of this pass -/
-def afterCall (cfg : Cfg) (sc : Script) (st : St) (late : Nat) : St :=
-  let w := afterWait cfg sc st late
-  { w with prod := (sc.iter (st.pass + 1)).out.outs, err := (sc.iter (st.pass + 1)).out.err,
-           now := w.now + (sc.iter (st.pass + 1)).dur, calls := st.calls + 1,
-           attempts := st.attempts ++ [⟨w.now, w.now + (sc.iter (st.pass + 1)).dur, (sc.iter (st.pass + 1)).out⟩] }
+theorem execList_ret (cfg : Cfg) (sc : Script) (a : Stmt) (rest : List Stmt) (s s' : St) (m e w)
+    (h : step cfg sc a s = .ret s' m e w) : execList cfg sc (a :: rest) s = .ret s' m e w := by
+  simp only [execList, h]
 
-/-- … and after the hook and `retryNum++` -/
-def afterHook (cfg : Cfg) (sc : Script) (st : St) (late : Nat) : St :=
-  let c := afterCall cfg sc st late
-  { c with hooks := st.hooks ++ (if cfg.hook then [(st.retryNum, randomized cfg st.cur (sc.iter (st.pass + 1)).draw)] else []),
-           retryNum := st.retryNum + 1 }
+theorem execList_brk (cfg : Cfg) (sc : Script) (a : Stmt) (rest : List Stmt) (s s' : St)
+    (h : step cfg sc a s = .brk s') : execList cfg sc (a :: rest) s = .brk s' := by
+  simp only [execList, h]
+
+/-! Intermediate states of one pass, written flat over the state `st` at the loop head.  The wait `w`, the next
+    interval `c` and the time stamps are parameters, so that no proof term has to look inside the arithmetic of
+    the back-off. -/
+
+/-- after `waitTime := NextBackOff()` and after the `select` (`t` = the clock) -/
+def sWait (st : St) (t w c : Nat) : St :=
+  { st with pass := st.pass + 1, now := t, wait := some w, cur := c }
+
+/-- after the handler call of this pass (`t` = its start) -/
+def sCall (sc : Script) (st : St) (t w c : Nat) : St :=
+  { st with pass := st.pass + 1, now := t + (sc.iter (st.pass + 1)).dur, wait := some w, cur := c,
+            prod := (sc.iter (st.pass + 1)).out.outs, err := (sc.iter (st.pass + 1)).out.err, calls := st.calls + 1,
+            attempts := st.attempts ++ [⟨t, t + (sc.iter (st.pass + 1)).dur, (sc.iter (st.pass + 1)).out⟩] }
+
+/-- after the hook (`hk` = what it appended) and `retryNum++` (`r` = the new value) -/
+def sHook (sc : Script) (st : St) (t w c : Nat) (hk : List (Nat × Nat)) (r : Nat) : St :=
+  { st with pass := st.pass + 1, now := t + (sc.iter (st.pass + 1)).dur, wait := some w, cur := c,
+            prod := (sc.iter (st.pass + 1)).out.outs, err := (sc.iter (st.pass + 1)).out.err, calls := st.calls + 1,
+            attempts := st.attempts ++ [⟨t, t + (sc.iter (st.pass + 1)).dur, (sc.iter (st.pass + 1)).out⟩],
+            hooks := st.hooks ++ hk, retryNum := r }
 
 section pass
 variable (cfg : Cfg) (sc : Script) (st : St) (e : Nat)
-  (hbo : st.bo = some cfg) (hctx : st.ctxBound = true) (he : st.err = some e) (hcalls : st.calls ≠ 0)
-include hbo hctx he hcalls
 
-theorem pass_stop (hs : stops cfg (st.now + (sc.iter (st.pass + 1)).lag - st.t0) = true) :
+theorem pass_stop (hbo : st.bo = some cfg) (he : st.err = some e)
+    (hs : stops cfg (st.now + (sc.iter (st.pass + 1)).lag - st.t0) = true) :
     execList cfg sc Gen.loopBody { st with pass := st.pass + 1 } =
       .ret { st with pass := st.pass + 1, now := st.now + (sc.iter (st.pass + 1)).lag, wait := none } st.prod (some e) .backoffStop := by
   simp only [Gen.loopBody, execList, step, hbo, hs, if_true, evalM, evalE, he]
 
-theorem pass_ctx (hs : stops cfg (st.now + (sc.iter (st.pass + 1)).lag - st.t0) = false)
-    (hp : (sc.iter (st.pass + 1)).pick = .ctxDone) :
-    ∃ s', execList cfg sc Gen.loopBody { st with pass := st.pass + 1 } = .ret s' st.prod (some e) .ctxDone ∧
-      s'.attempts = st.attempts ∧ s'.hooks = st.hooks := by
-  simp only [Gen.loopBody, execList, step, hbo, hs, hp, hctx, evalM, evalE, he, Bool.false_eq_true, if_false, if_true,
-    reduceCtorEq]
-  exact ⟨_, rfl, rfl, rfl⟩
+variable (w c : Nat) (hw : randomized cfg st.cur (sc.iter (st.pass + 1)).draw = w) (hc : nextCur cfg st.cur = c)
+  (hbo : st.bo = some cfg) (hctx : st.ctxBound = true) (he : st.err = some e) (hcalls : st.calls ≠ 0)
+  (hs : stops cfg (st.now + (sc.iter (st.pass + 1)).lag - st.t0) = false)
 
-theorem pass_ok (late : Nat) (hs : stops cfg (st.now + (sc.iter (st.pass + 1)).lag - st.t0) = false)
-    (hp : (sc.iter (st.pass + 1)).pick = .timer late) (ho : (sc.iter (st.pass + 1)).out.err = none) :
-    execList cfg sc Gen.loopBody { st with pass := st.pass + 1 } =
-      .ret (afterCall cfg sc st late) (sc.iter (st.pass + 1)).out.outs none .success := by
-  simp only [Gen.loopBody, execList, step, hbo, hs, hp, hctx, ho, hcalls, evalM, evalE, evalD, Bool.false_eq_true, if_false,
-    if_true, reduceCtorEq, afterCall, afterWait, Option.getD_some]
+include hw hc hbo hs in
+theorem step_next :
+    step cfg sc .nextBackOff { st with pass := st.pass + 1 } = .cont (sWait st (st.now + (sc.iter (st.pass + 1)).lag) w c) := by
+  simp only [step, hbo, hs, hw, hc, sWait, Bool.false_eq_true, if_false]
 
-theorem pass_fail (late e' : Nat) (hs : stops cfg (st.now + (sc.iter (st.pass + 1)).lag - st.t0) = false)
-    (hp : (sc.iter (st.pass + 1)).pick = .timer late) (ho : (sc.iter (st.pass + 1)).out.err = some e') :
-    execList cfg sc Gen.loopBody { st with pass := st.pass + 1 } =
-      if ((st.retryNum + 1 : Nat) : Int) > cfg.maxRetries then .brk (afterHook cfg sc st late) else .cont (afterHook cfg sc st late) := by
+theorem step_ifstop (t : Nat) : step cfg sc (.ifStopRet .prod .err) (sWait st t w c) = .cont (sWait st t w c) := by
+  simp only [step, sWait, reduceCtorEq, if_false]
+
+include hctx in
+theorem step_select_timer (t late : Nat) (hp : (sc.iter (st.pass + 1)).pick = .timer late) :
+    step cfg sc (.selectCtxTimer .prod .err .wait) (sWait st t w c) = .cont (sWait st (t + w + late) w c) := by
+  simp only [step, sWait, hctx, hp, if_true, evalD, Option.getD_some]
+
+include hctx he in
+theorem step_select_ctx (t : Nat) (hp : (sc.iter (st.pass + 1)).pick = .ctxDone) :
+    step cfg sc (.selectCtxTimer .prod .err .wait) (sWait st t w c) = .ret (sWait st t w c) st.prod (some e) .ctxDone := by
+  simp only [step, sWait, hctx, hp, if_true, evalM, evalE, he]
+
+include hcalls in
+theorem step_call (t : Nat) : step cfg sc .callH (sWait st t w c) = .cont (sCall sc st t w c) := by
+  simp only [step, sWait, sCall, hcalls, if_false]
+
+theorem step_iferr_ok (t : Nat) (ho : (sc.iter (st.pass + 1)).out.err = none) :
+    step cfg sc (.ifErrNilRet .prod .nil) (sCall sc st t w c) =
+      .ret (sCall sc st t w c) (sc.iter (st.pass + 1)).out.outs none .success := by
+  simp only [step, sCall, ho, if_true, evalM, evalE]
+
+theorem step_iferr_fail (t e' : Nat) (ho : (sc.iter (st.pass + 1)).out.err = some e') :
+    step cfg sc (.ifErrNilRet .prod .nil) (sCall sc st t w c) = .cont (sCall sc st t w c) := by
+  simp only [step, sCall, ho, reduceCtorEq, if_false]
+
+theorem step_log (s : St) : step cfg sc .logIfLogger s = .cont s := rfl
+
+theorem step_hook (t : Nat) :
+    step cfg sc (.hookIfSet .retryNum .wait) (sCall sc st t w c) =
+      .cont (sHook sc st t w c (if cfg.hook then [(st.retryNum, w)] else []) st.retryNum) := by
   cases hh : cfg.hook <;>
-  simp only [Gen.loopBody, execList, step, hbo, hs, hp, hctx, ho, hcalls, evalM, evalE, evalD, evalI, evalC, Bool.false_eq_true,
-    if_false, if_true, reduceCtorEq, afterHook, afterCall, afterWait, Option.getD_some, hh, Int.toNat_natCast,
-    List.append_nil, Nat.cast_add, Nat.cast_one] <;>
-  split <;> rfl
+  simp only [step, sCall, sHook, hh, evalI, evalD, Option.getD_some, Int.toNat_natCast, List.append_nil, if_true, if_false,
+    Bool.false_eq_true]
+
+theorem step_inc (t : Nat) (hk : List (Nat × Nat)) (r : Nat) :
+    step cfg sc .incRetryNum (sHook sc st t w c hk r) = .cont (sHook sc st t w c hk (r + 1)) := by
+  simp only [step, sHook]
+
+theorem step_ifbreak (t : Nat) (hk : List (Nat × Nat)) (r : Nat) :
+    step cfg sc (.ifBreak .gt .retryNum .maxRetries) (sHook sc st t w c hk r) =
+      if ((r : Nat) : Int) > cfg.maxRetries then .brk (sHook sc st t w c hk r) else .cont (sHook sc st t w c hk r) := by
+  simp only [step, sHook, evalC, evalI]
+  by_cases h : ((r : Nat) : Int) > cfg.maxRetries <;> simp [h]
+
+include hw hc hbo hctx he hs in
+theorem pass_ctx (hp : (sc.iter (st.pass + 1)).pick = .ctxDone) :
+    execList cfg sc Gen.loopBody { st with pass := st.pass + 1 } =
+      .ret (sWait st (st.now + (sc.iter (st.pass + 1)).lag) w c) st.prod (some e) .ctxDone := by
+  rw [Gen.loopBody, execList_cont _ _ _ _ _ _ (step_next cfg sc st w c hw hc hbo hs),
+    execList_cont _ _ _ _ _ _ (step_ifstop cfg sc st w c _),
+    execList_ret _ _ _ _ _ _ _ _ _ (step_select_ctx cfg sc st e w c hctx he _ hp)]
+
+include hw hc hbo hctx hcalls hs in
+theorem pass_ok (late : Nat) (hp : (sc.iter (st.pass + 1)).pick = .timer late) (ho : (sc.iter (st.pass + 1)).out.err = none) :
+    execList cfg sc Gen.loopBody { st with pass := st.pass + 1 } =
+      .ret (sCall sc st (st.now + (sc.iter (st.pass + 1)).lag + w + late) w c) (sc.iter (st.pass + 1)).out.outs none .success := by
+  rw [Gen.loopBody, execList_cont _ _ _ _ _ _ (step_next cfg sc st w c hw hc hbo hs),
+    execList_cont _ _ _ _ _ _ (step_ifstop cfg sc st w c _),
+    execList_cont _ _ _ _ _ _ (step_select_timer cfg sc st w c hctx _ late hp),
+    execList_cont _ _ _ _ _ _ (step_call cfg sc st w c hcalls _),
+    execList_ret _ _ _ _ _ _ _ _ _ (step_iferr_ok cfg sc st w c _ ho)]
+
+include hw hc hbo hctx hcalls hs in
+theorem pass_fail (late e' : Nat) (hp : (sc.iter (st.pass + 1)).pick = .timer late)
+    (ho : (sc.iter (st.pass + 1)).out.err = some e') :
+    execList cfg sc Gen.loopBody { st with pass := st.pass + 1 } =
+      if ((st.retryNum + 1 : Nat) : Int) > cfg.maxRetries
+      then .brk (sHook sc st (st.now + (sc.iter (st.pass + 1)).lag + w + late) w c (if cfg.hook then [(st.retryNum, w)] else []) (st.retryNum + 1))
+      else .cont (sHook sc st (st.now + (sc.iter (st.pass + 1)).lag + w + late) w c (if cfg.hook then [(st.retryNum, w)] else []) (st.retryNum + 1)) := by
+  rw [Gen.loopBody, execList_cont _ _ _ _ _ _ (step_next cfg sc st w c hw hc hbo hs),
+    execList_cont _ _ _ _ _ _ (step_ifstop cfg sc st w c _),
+    execList_cont _ _ _ _ _ _ (step_select_timer cfg sc st w c hctx _ late hp),
+    execList_cont _ _ _ _ _ _ (step_call cfg sc st w c hcalls _),
+    execList_cont _ _ _ _ _ _ (step_iferr_fail cfg sc st w c _ e' ho),
+    execList_cont _ _ _ _ _ _ (step_log cfg sc _),
+    execList_cont _ _ _ _ _ _ (step_hook cfg sc st w c _),
+    execList_cont _ _ _ _ _ _ (step_inc cfg sc st w c _ _ _)]
+  have := step_ifbreak cfg sc st w c (st.now + (sc.iter (st.pass + 1)).lag + w + late) (if cfg.hook then [(st.retryNum, w)] else []) (st.retryNum + 1)
+  by_cases hm : ((st.retryNum + 1 : Nat) : Int) > cfg.maxRetries
+  · rw [if_pos hm] at this ⊢
+    exact execList_brk _ _ _ _ _ _ this
+  · rw [if_neg hm] at this ⊢
+    rw [execList_cont _ _ _ _ _ _ this]; rfl
 
 end pass
 
@@ -111,29 +193,35 @@ theorem extracted_loop (cfg : Cfg) (sc : Script) : ∀ (fuel : Nat) (st : St) (e
     simp only [← hpass] at hc
     rw [← hpass]
     unfold execLoop
+    -- the arithmetic of the back-off stays folded
+    generalize hw : randomized cfg st.cur (sc.iter (st.pass + 1)).draw = w at hc
+    generalize hcu : nextCur cfg st.cur = c at hc
     cases hc with
     | stop hs hr =>
-      rw [hr, pass_stop cfg sc st e hbo hctx he hcalls hs]
+      dsimp only at hs
+      rw [hr, pass_stop cfg sc st e hbo he hs]
       simp [runOf, prepend]
     | ctx hs hp hr =>
-      obtain ⟨s', h1, h2, h3⟩ := pass_ctx cfg sc st e hbo hctx he hcalls hs hp
-      rw [hr, h1]
-      simp [runOf, prepend, h2, h3]
+      dsimp only at hs hp
+      rw [hr, pass_ctx cfg sc st e w c hw hcu hbo hctx he hs hp]
+      simp [runOf, prepend, sWait]
     | ok late hs hp ho hr =>
-      rw [hr, pass_ok cfg sc st e hbo hctx he hcalls late hs hp ho]
-      simp [runOf, prepend, afterCall, afterWait, attemptOf]
+      dsimp only at hs hp ho
+      rw [hr, pass_ok cfg sc st w c hw hcu hbo hctx hcalls hs late hp ho]
+      simp [runOf, prepend, sCall, attemptOf, hw]
     | last late e' hs hp ho hm hr =>
-      rw [hr, pass_fail cfg sc st e hbo hctx he hcalls late e' hs hp ho, ← hpass, if_pos hm]
-      simp [Gen.after, execList, step, evalM, evalE, runOf, prepend, afterHook, afterCall, afterWait, attemptOf, hookOf, ho, hpass]
+      dsimp only at hs hp ho hm
+      rw [hr, pass_fail cfg sc st w c hw hcu hbo hctx hcalls hs late e' hp ho, ← hpass, if_pos hm]
+      simp [Gen.after, execList, step, evalM, evalE, runOf, prepend, sHook, attemptOf, hookOf, ho, ← hpass, hw]
     | again late e' hs hp ho hm hr =>
+      dsimp only at hs hp ho hm
       have hm' : ¬ (((st.pass + 1 + 1 : Nat) : Int) > cfg.maxRetries) := by omega
-      rw [hr, pass_fail cfg sc st e hbo hctx he hcalls late e' hs hp ho, ← hpass, if_neg hm']
+      rw [hr, pass_fail cfg sc st w c hw hcu hbo hctx hcalls hs late e' hp ho, ← hpass, if_neg hm']
       simp only []
-      rw [ih (afterHook cfg sc st late) e' (by simp [afterHook, afterCall, afterWait, hbo])
-        (by simp [afterHook, afterCall, afterWait, hctx]) (by simp [afterHook, afterCall, afterWait, ho])
-        (by simp [afterHook, afterCall, afterWait]) (by simp [afterHook, afterCall, afterWait, hpass])]
+      rw [ih _ e' (by simp [sHook, hbo]) (by simp [sHook, hctx]) (by simp [sHook, ho]) (by simp [sHook])
+        (by simp [sHook])]
       rw [← prepend_push]
-      simp [afterHook, afterCall, afterWait, nextSt, attemptOf, hookOf, hpass]
+      simp [sHook, nextSt, attemptOf, hookOf, ← hpass, hw, hcu]
 
 /-- **what the source says now is the model**: interpreting the extracted body of the closure returned by
     `(Retry).Middleware` gives `retry cfg sc`, for every configuration and every script -/
